@@ -74,6 +74,11 @@ class Scratch:
                 if rel in ('parse.c',):
                     continue
                 shutil.copy2(f, os.path.join(self.src, rel))
+        # the harnesses include several modules in one translation unit: make the headers idempotent
+        for h in glob.glob(os.path.join(self.src, '*.h')) + glob.glob(os.path.join(self.src, 'libks', '*.h')):
+            body = open(h, 'rb').read()
+            if not body.startswith(b'#pragma once'):
+                open(h, 'wb').write(b'#pragma once\n' + body)
         if not os.path.exists(os.path.join(self.src, 'config.h')):
             r = subprocess.run(['sh', './configure'], cwd=self.src, capture_output=True, text=True)
             if r.returncode != 0 or not os.path.exists(os.path.join(self.src, 'config.h')):
